@@ -385,6 +385,7 @@ func flip(op token.Token) token.Token {
 }
 
 func c12r3(c *core.Ctx) {
+	readableCtorsHoldAValue(c)
 	p := c.P
 	consts := formatConstants(p)
 	ty, _, _ := convertTypes(p)
@@ -532,4 +533,32 @@ func c12r4(c *core.Ctx) {
 	if n == 0 {
 		c.Undecided("float-conversion@"+fname(f), f.Pos(), "no float conversion of a peer value found in convert")
 	}
+}
+
+// readableCtorsHoldAValue (C12-R3): every characteristic constructor of the library that grants read permission stores a value of
+// its format before it returns (for the empty history of updates the typed getter must not fail either: it asserts the Go type of
+// the stored value, and nil has none). Decided on the constructor catalogue that C15 evaluates.
+func readableCtorsHoldAValue(c *core.Ctx) {
+	cat := buildCatalogue(c.P)
+	n := 0
+	for _, k := range sortedKeys(cat.chars) {
+		x := cat.chars[k]
+		if len(x.Problems) > 0 {
+			continue // C15-R1 reports constructors it cannot evaluate
+		}
+		readable := false
+		for _, pm := range x.Perms {
+			if pm == "pr" {
+				readable = true
+			}
+		}
+		if !readable {
+			continue
+		}
+		n++
+		if !x.HasDefault {
+			c.Bad("readable-ctor-holds-a-value:New"+k, x.Pos, "New%s grants read permission but sets no value: the stored value is nil and the typed getter (an unchecked type assertion on the stored value) panics", k)
+		}
+	}
+	c.Check(n > 100, "readable-ctors-hold-a-value", token.NoPos, fmt.Sprintf("%d readable constructors looked at", n), "fewer than 100 readable characteristic constructors found")
 }
